@@ -3,7 +3,7 @@ PROPS.update({
         "streams": ["c19"],
         "timeout": 300,
         "rule": "real couchbase.NewHealthCheck under a scripted Ping fake, one CHILD process per op (the library's panic kills the process): "
-                "hc-round = all 2^5 result patterns of one isolated round (ticker interval chosen so that exactly one round fits the window; "
+                "hc-round = all 2^5 result patterns of one isolated round, plus rounds whose failing pings take as long as healthCheck.timeout (250-1200 ms: a ping failing by its deadline) - same outcome required (ticker interval chosen so that exactly one round fits the window; "
                 "1.3 s grace after the first success); hc-rounds = runs of 2-5 rounds on a 20 ms ticker incl. runs ending in FFFFF, each ping "
                 "labelled T (after a tick) / R (>= 800 ms after the previous ping returned: the hard-coded 1 s retry wait); hc-stop = Stop() before "
                 "the first tick, inside Ping() number k (k=1..5, released with failure / success) and 100 ms into the retry wait after failure "
